@@ -772,10 +772,12 @@ def place_body_examples(plan, rng, version, allow_findings):
     mt = {}
     ef, esf = ("example", "examples") if version == 3 else ("x-example", "x-examples")
     modes = ["mt_example", "mt_examples", "schema_example", "schema_examples", "props", "props_nested", "props_anyOf", "branches", "allOf", "mixed"]
+    # examples on two levels of one property at once, and alternatives mixing direct and nested-only examples
+    modes += ["two_level", "two_level", "two_level_items", "alt_direct_nested", "alt_direct_nested"]
     if allow_findings:
-        modes += ["allOf_x_20" if version == 2 else "props_in_branch", "nested"]
+        modes += ["allOf_x_20" if version == 2 else "props_in_branch", "nested", "two_level_in_branch"]
     if version == 2:
-        modes = [m for m in modes if m not in ("schema_examples", "props_anyOf", "branches", "nested", "props_in_branch")]
+        modes = [m for m in modes if m not in ("schema_examples", "props_anyOf", "branches", "nested", "props_in_branch", "alt_direct_nested", "two_level_in_branch")]
     mode = rng.choice(modes)
     if plan.twin_mode:
         mode = rng.choice(["mt_examples", "schema_examples", "branches", "allOf", "mixed", "props"] if version == 3 else ["mt_examples", "mixed", "props"])
@@ -872,6 +874,50 @@ def place_body_examples(plan, rng, version, allow_findings):
         v1, v2 = plan.body_value(), plan.body_value()
         schema = {"anyOf": [{"oneOf": [{"example": v1}]}, {"example": v2}]}
         out += [((), v1, "nested_composition"), ((), v2, None)]
+    if mode in ("two_level", "two_level_in_branch"):
+        # the property has its own example AND examples on its nested properties (optionally one level deeper still)
+        t_own, t_in, t_num, t_plain = plan.token(), plan.token(), plan.token("int"), plan.token()
+        own = {"inner": t_own, "num": 1}
+        o = {"type": "object", "properties": {"inner": {"type": "string", "example": t_in}, "num": {"type": "integer", "examples": [t_num]}}}
+        exp = [(("o", "inner"), t_in), (("o", "num"), t_num)]
+        if rng.random() < 0.4:
+            t_p_own, t_q = plan.token(), plan.token()
+            o["properties"]["p"] = {"type": "object", "example": {"q": t_p_own}, "properties": {"q": {"type": "string", "example": t_q}}}
+            exp += [(("o", "p"), {"q": t_p_own}), (("o", "p", "q"), t_q)]
+        if rng.random() < 0.5:
+            o["example"] = own
+        else:
+            o["examples"] = [own] + ([{"inner": plan.token()}] if rng.random() < 0.3 else [])
+            exp += [(("o",), x) for x in o["examples"][1:]]
+        exp.append((("o",), own))
+        inner_schema = {"type": "object", "properties": {"o": o, "plain": {"type": "string", "example": t_plain}}}
+        exp.append((("plain",), t_plain))
+        if mode == "two_level":
+            schema = inner_schema
+            out += [(pth, v, None) for pth, v in exp]
+        else:  # the same object as an allOf member: whether anything is extracted is decided by the model (classify_by_model)
+            schema = {rng.choice(["allOf", "anyOf"]): [inner_schema]}
+            out += [(pth, v, "property_inside_branch") for pth, v in exp]
+    if mode == "two_level_items":
+        t_own, t_i = plan.token(), plan.token()
+        own = [{"i": t_own}]
+        arr = {"type": "array", "items": {"type": "object", "properties": {"i": {"type": "string", "example": t_i}}}}
+        if rng.random() < 0.6:
+            arr["example"] = own
+        else:
+            arr["examples"] = [own]
+        schema = {"type": "object", "properties": {"arr": arr}}
+        out += [(("arr",), own, None), (("arr", 0, "i"), t_i, None)]
+    if mode == "alt_direct_nested":
+        # one alternative with a direct example, another with examples on nested properties only (both orders)
+        t_direct, t_deep, t_deep2 = plan.token(), plan.token(), plan.token("int")
+        direct = {"type": "string", "example": t_direct}
+        nested_alt = {"type": "object", "properties": {"deep": {"type": "string", "example": t_deep}, "deeper": {"type": "object", "properties": {"leaf": {"type": "integer", "example": t_deep2}}}}}
+        alts = [direct, nested_alt]
+        if rng.random() < 0.35:
+            alts.reverse()
+        schema = {"type": "object", "properties": {"u": {rng.choice(["anyOf", "oneOf"]): alts}}}
+        out += [(("u",), t_direct, None), (("u", "deep"), t_deep, None), (("u", "deeper", "leaf"), t_deep2, None)]
     mt["schema"] = schema
     return mt, out, refs
 
@@ -1026,7 +1072,10 @@ def wires(v):
 
 def dig(obj, path):
     for k in path:
-        if not isinstance(obj, dict) or k not in obj:
+        if isinstance(k, int) and not isinstance(k, bool):
+            if not isinstance(obj, list) or k >= len(obj):
+                return ("missing",)
+        elif not isinstance(obj, dict) or k not in obj:
             return ("missing",)
         obj = obj[k]
     return ("found", obj)
@@ -1137,6 +1186,85 @@ def check_document(chk, raw, ops, record=True):
     return fails
 
 
+def uncanon(c):
+    tag = c[0]
+    if tag == "null":
+        return None
+    if tag in ("bool", "int", "str"):
+        return c[1]
+    if tag == "arr":
+        return [uncanon(x) for x in c[1]]
+    if tag == "obj":
+        return {k: uncanon(x) for k, x in c[1]}
+    return c
+
+
+def schema_of(raw, op, e):
+    """The schema a planted example lives in (None when it is not planted inside a schema we can hand to the model)."""
+    node = raw["paths"][op["path"]][op["method"].lower()]
+    if e["loc"] == "body":
+        if e.get("media_type") != J:
+            return None
+        if "requestBody" in node:
+            return node["requestBody"]["content"].get(J, {}).get("schema")
+        for p in node.get("parameters", []):
+            if p.get("in") == "body":
+                return p.get("schema")
+        return None
+    for p in node.get("parameters", []):
+        if p.get("name") == e["name"] and p.get("in") == e["loc"]:
+            return p.get("schema")
+    return None
+
+
+MODEL_DECIDED = {"nested_composition", "property_inside_branch", "allof_20_examples_lost"}
+
+
+def classify_by_model(chk, docs):
+    """An example planted inside a schema is excused by a listed extraction finding (F2/F3/F4) only when the Coq MODEL of the
+    extractors predicts, for that exact schema, that the value is not extracted; when the model predicts it is extracted the
+    example must arrive (region None), whatever its shape."""
+    jobs, exprs = [], []
+    for raw, ops in docs:
+        v2 = "swagger" in raw
+        for op in ops:
+            for e in op["expect"]:
+                if e.get("region") not in MODEL_DECIDED:
+                    continue
+                sch = schema_of(raw, op, e)
+                if not isinstance(sch, dict):
+                    continue
+                top = "top_values [s_example; s_x_example] s_x_examples" if v2 else "top_values [s_example] s_examples"
+                g = f"(JStr {cstr(GENERATED)})"
+                if e["loc"] == "body":
+                    exprs.append(f"[{top} {cjson(sch)}; extract_from_schema 40 {g} s_example s_examples {cjson(sch)}; extract_from_schema 40 {g} s_x_example s_x_examples {cjson(sch)}]")
+                else:
+                    exprs.append(f"[{top} {cjson(sch)}]")
+                jobs.append(e)
+    if not exprs:
+        chk.stages["oracle_model_classification"] = {"candidates": 0}
+        return
+    results = coq_eval(exprs)
+    excused = required = 0
+    for e, res in zip(jobs, results):
+        predicted = False
+        for r in res:
+            mv = model_values(r)
+            if mv[0] != "ok":
+                continue
+            for x in mv[1]:
+                got = dig(uncanon(x), e.get("path", []))
+                if got[0] == "found" and strict_key(got[1]) == strict_key(e["value"]):
+                    predicted = True
+        if predicted:
+            e["region_by_shape"], e["region"] = e["region"], None
+            required += 1
+        else:
+            e["model_predicts_not_extracted"] = True
+            excused += 1
+    chk.stages["oracle_model_classification"] = {"candidates": len(jobs), "model_predicts_extracted_so_required": required, "model_predicts_not_extracted_so_listed_finding": excused}
+
+
 def stage_oracle(chk, n_docs):
     rng = chk.rng
     corpus = [json.loads(p.read_text()) for p in sorted((core.VERIF / "corpus" / "C17").glob("doc_*.json"))]
@@ -1144,6 +1272,7 @@ def stage_oracle(chk, n_docs):
     for i in range(n_docs):
         version = 3 if rng.random() < 0.75 else 2
         docs.append(gen_document(rng, version, rng.choice([3, 5, 8]), allow_findings=(i % 3 == 2)))
+    classify_by_model(chk, docs)
     n_ops = n_expect = n_fail = n_done = n_twins = 0
     # a broken proof / correspondence multiplies the search by 10, but the whole check must stay under ~4 minutes:
     # stop at the deadline, or as soon as a handful of concrete failing inputs outside the listed regions is in hand
